@@ -5,7 +5,9 @@ copies of /repo's *current working tree* (under $VERIF_SCRATCH, default
 /var/tmp; each copy is removed as soon as it has been analysed):
 
 * every seeded change under /verif/seeded/ whose meta.json says that P's
-  check catches it  -> the check must exit 1 (VIOLATION) on the copy,
+  check catches it, and every reverted fix: commit under /verif/regress/
+  that P's check reported (regress/MATRIX.json)  -> the check must exit 1
+  (VIOLATION) on the copy,
 * every neutral (behaviour-preserving) change under /verif/neutral/ -> the
   check must not report a violation on the copy.
 
@@ -91,6 +93,17 @@ def run_for(prop):
             meta = json.load(open(mp))
             if prop in meta.get('caught_by', {}):
                 jobs.append((prop, 'seeded', vid, pp))
+    # reverted fix: commits of /repo (the defects found while building)
+    regress_dir = os.path.join(VERIF, 'regress')
+    mx = os.path.join(regress_dir, 'MATRIX.json')
+    if os.path.isfile(mx):
+        rm = json.load(open(mx))
+        for cid, res in sorted(rm.items()):
+            rb = res.get('reported_by', {})
+            if rb.get(prop, {}).get('rc') == 1:
+                pp = os.path.join(regress_dir, cid, 'patch.diff')
+                if os.path.isfile(pp):
+                    jobs.append((prop, 'seeded', 'revert-' + cid, pp))
     if os.path.isdir(neutral_dir):
         for vid in sorted(os.listdir(neutral_dir)):
             pp = os.path.join(neutral_dir, vid, 'patch.diff')
